@@ -91,6 +91,73 @@ theorem refused_invisible {σ} : ∀ (evs : List (Ev σ)) (s : Sys σ), AllRefus
       simp only [Sys.run]
       rw [this, h1]
 
+/-! ### Accepted writes: each takes effect exactly once, at the moment its call finishes
+
+The listers read `st` and nothing else: no List call keeps anything between calls (each reads the collection /
+the record slice again), so what a List call answers at any point of any interleaving is determined by the commits
+of the calls that have FINISHED so far. -/
+
+/-- The commits that take effect along an interleaving, in the order in which their calls finish. -/
+def Sys.commits {σ} (s : Sys σ) : List (Ev σ) → List (σ → σ)
+  | [] => []
+  | e :: es =>
+    (match e with
+     | .finish i =>
+       match s.pending[i]? with
+       | some (true, c) => [c]
+       | _ => []
+     | .begin _ _ => []) ++ Sys.commits (s.step e) es
+
+/-- The commits applied one after the other. -/
+def applyAll {σ} (st : σ) (cs : List (σ → σ)) : σ := cs.foldl (fun st c => c st) st
+
+theorem applyAll_append {σ} (st : σ) (a b : List (σ → σ)) : applyAll st (a ++ b) = applyAll (applyAll st a) b := by
+  simp [applyAll, List.foldl_append]
+
+theorem step_st_commits {σ} (s : Sys σ) (e : Ev σ) :
+    (s.step e).st = applyAll s.st (match e with
+     | .finish i =>
+       match s.pending[i]? with
+       | some (true, c) => [c]
+       | _ => []
+     | .begin _ _ => []) := by
+  cases e with
+  | begin a c => rfl
+  | finish i =>
+    simp only [Sys.step]
+    cases hi : s.pending[i]? with
+    | none => rfl
+    | some ac =>
+      obtain ⟨a, c⟩ := ac
+      cases a <;> simp [applyAll]
+
+/-- At the end of ANY interleaving the state the listers read is the initial one with the commits of the accepted
+calls that have finished, applied once each in finishing order. -/
+theorem run_st_commits {σ} : ∀ (evs : List (Ev σ)) (s : Sys σ), (s.run evs).st = applyAll s.st (s.commits evs) := by
+  intro evs
+  induction evs with
+  | nil => intro s; rfl
+  | cons e es ih =>
+    intro s
+    simp only [Sys.run, Sys.commits]
+    rw [ih (s.step e), applyAll_append, ← step_st_commits]
+
+theorem run_append {σ} : ∀ (a b : List (Ev σ)) (s : Sys σ), s.run (a ++ b) = (s.run a).run b := by
+  intro a
+  induction a with
+  | nil => intro b s; rfl
+  | cons e es ih => intro b s; simp only [List.cons_append, Sys.run]; exact ih b _
+
+theorem commits_append {σ} : ∀ (a b : List (Ev σ)) (s : Sys σ),
+    s.commits (a ++ b) = s.commits a ++ (s.run a).commits b := by
+  intro a
+  induction a with
+  | nil => intro b s; rfl
+  | cons e es ih =>
+    intro b s
+    simp only [List.cons_append, Sys.commits, Sys.run, List.append_assoc]
+    rw [ih b]
+
 /-- wastepb `AddWasteRecord(r, opts…)` as a call of `Sys`: the commit appends the record. -/
 def wasteAdd (accept : Bool) (r : Nat) : Ev (List Nat) := .begin accept (· ++ [r])
 
